@@ -62,7 +62,13 @@ Val2 == Mk(<< <<"elem","a",1,"">>,
               <<"elem","c",2,"">>, <<"text","",7,"10">>,
               <<"elem","c",2,"">>, <<"text","",9,"10">>,
               <<"elem","d",2,"">>, <<"text","",11,"ab">> >>)
-ValDocs == <<Val1, Val2>>
+\* pairs of attribute values whose CONCATENATIONS coincide ("ab"+"c" = "a"+"bc" = "abc"+""): memo tables keyed by joined arguments
+Val3 == Mk(<< <<"elem","r",1,"">>,
+              <<"elem","x",2,"">>, <<"attr","s",3,"ab">>, <<"attr","d",3,"c">>,
+              <<"elem","y",2,"">>, <<"attr","s",6,"a">>, <<"attr","d",6,"bc">>,
+              <<"elem","z",2,"">>, <<"attr","s",9,"a">>, <<"attr","d",9,"b">>,
+              <<"elem","w",2,"">>, <<"attr","s",12,"abc">>, <<"attr","d",12,"">> >>)
+ValDocs == <<Val1, Val2, Val3>>
 
 ASSUME \A i \in 1 .. Len(Catalogue) : WFDoc(Catalogue[i])
 ASSUME \A i \in 1 .. Len(ValDocs) : WFDoc(ValDocs[i]) /\ DocSanity(ValDocs[i])
